@@ -144,10 +144,11 @@ def run_shard(binp, scen_path, work, idx):
     """execute one shard with the harness, validate its trace with TLC; returns a result dict"""
     trace = os.path.join(work, 'trace_%d.ndjson' % idx)
     prog = os.path.join(work, 'progress_%d' % idx)
-    res = {'shard': idx, 'scen': scen_path, 'trace': trace, 'crash': None, 'fails': [], 'events': 0, 'consumed': 0}
+    digf = os.path.join(work, 'digest_%d' % idx)
+    res = {'shard': idx, 'scen': scen_path, 'trace': trace, 'crash': None, 'fails': [], 'events': 0, 'consumed': 0, 'digests': {}}
     try:
-        p = subprocess.run([binp, 'run', scen_path, trace, '--progress', prog], stdout=subprocess.PIPE,
-                           stderr=subprocess.PIPE, timeout=int(os.environ.get('VERIF_SHARD_TIMEOUT', '600')))
+        p = subprocess.run([binp, 'run', scen_path, trace, '--progress', prog, '--digest', digf], stdout=subprocess.PIPE,
+                           stderr=subprocess.PIPE, timeout=int(os.environ.get('VERIF_SHARD_TIMEOUT', '90')))
         rc = p.returncode
         err = p.stderr.decode('utf-8', 'replace')[-2000:]
     except subprocess.TimeoutExpired:
@@ -155,7 +156,17 @@ def run_shard(binp, scen_path, work, idx):
     if rc != 0:
         # the code under test killed the process (abort, segfault) or hung: find the scenario
         cur = open(prog).read().strip() if os.path.exists(prog) else ''
-        res['crash'] = {'rc': rc, 'stderr': err, 'at': cur}
+        res['crash'] = {'rc': rc, 'stderr': err, 'at': cur, 'what': 'timeout (no return within the limit)' if rc == -999 else 'process died'}
+        try:
+            ln = int(cur.split()[0])
+            res['crash']['scenario'] = open(scen_path).read().splitlines()[ln]
+        except Exception:
+            pass
+    if os.path.exists(digf):
+        for line in open(digf):
+            a = line.split()
+            if len(a) == 2:
+                res['digests'][a[0]] = a[1]
     if not os.path.exists(trace) or os.path.getsize(trace) == 0:
         return res
     # validate whatever was recorded (a crashed run leaves a prefix: truncate to the last complete scenario)
@@ -210,7 +221,9 @@ def run_scenarios(scen_lines, feat='default', tag='run', keep=False):
            'fails': [], 'crashes': [], 'tool_errors': [], 'wall_s': time.time() - t0, 'work': work,
            'bin_sha': file_sha(binp), 'tlc_states': sum((r.get('tlc_states') or {}).get('distinct', 0) for r in results),
            'tlc_transitions': sum((r.get('tlc_states') or {}).get('generated', 0) for r in results)}
+    agg['digests'] = {}
     for r in results:
+        agg['digests'].update(r.get('digests', {}))
         for f in r['fails']:
             f['shard'] = r['shard']
             agg['fails'].append(f)
